@@ -4,6 +4,7 @@
 -/
 import MiniMoka.Wire
 import MiniMoka.Unsync
+import MiniMoka.Sync
 
 namespace MiniMoka
 namespace Driver
@@ -14,6 +15,7 @@ inductive Machine where
   | idle
   | dead                                   -- after a panic: skip to the next case
   | unsync (p : Params) (s : Unsync.UState)
+  | sync (p : Params) (s : Sync.SState)
 
 /-- The operation part of a trace line (`op` or `op -> observation`). -/
 def opPart (line : String) : String :=
@@ -30,7 +32,7 @@ def stepLine (m : Machine) (line : String) : Machine × Option String :=
     | some c =>
       match c.kind with
       | .unsync => (.unsync c.params {}, some s!"{op} -> ok")
-      | .sync => (.dead, some s!"{op} -> bad-op")
+      | .sync => (.sync c.params {}, some s!"{op} -> ok")
   else
     match m with
     | .idle => (m, some s!"{op} -> bad-op")
@@ -43,6 +45,15 @@ def stepLine (m : Machine) (line : String) : Machine × Option String :=
         let m' := match ob with
           | .panic _ => Machine.dead
           | _ => Machine.unsync p s'
+        (m', some s!"{op} -> {obs ob}")
+    | .sync p s =>
+      match parseOp op with
+      | none => (m, some s!"{op} -> bad-op")
+      | some o =>
+        let (s', ob) := Sync.step p s o
+        let m' := match ob with
+          | .panic _ => Machine.dead
+          | _ => Machine.sync p s'
         (m', some s!"{op} -> {obs ob}")
 
 partial def loop (h : IO.FS.Stream) (out : IO.FS.Stream) (m : Machine) : IO Unit := do
